@@ -568,6 +568,10 @@ func c06r6(p *Program, r *Report) {
 					}
 				}
 			}
+			if !okOnce && lit == nil {
+				// the notification lives in a method that is only ever used as the argument of that Once.Do
+				okOnce = p.onlyRunThroughOnce(fi, "callReq", "streamObserverEndOnce")
+			}
 			r.Check(okOnce, c, fi.Name+" "+m, "inside streamObserverEndOnce.Do", "stream observer end notification outside the call's sync.Once: Finished and Abandoned can both fire")
 			return true
 		})
@@ -909,4 +913,54 @@ func firstOr(l []string, d string) string {
 		return l[0]
 	}
 	return d
+}
+
+// onlyRunThroughOnce: every reference to function/method fi in the package is as the argument of
+// <T.field>.Do(...) for the given sync.Once field (a method value or function value), never a direct call.
+func (p *Program) onlyRunThroughOnce(fi *FuncInfo, typ, field string) bool {
+	if fi.Obj == nil {
+		return false
+	}
+	nref, ok := 0, true
+	for _, other := range p.SortedFuncs() {
+		if other.Decl.Body == nil {
+			continue
+		}
+		oinfo := other.Pkg.TypesInfo
+		ast.Inspect(other.Decl.Body, func(n ast.Node) bool {
+			var id *ast.Ident
+			var ref ast.Expr
+			switch x := n.(type) {
+			case *ast.SelectorExpr:
+				if oinfo.Uses[x.Sel] == types.Object(fi.Obj) {
+					id, ref = x.Sel, x
+				}
+			case *ast.Ident:
+				if oinfo.Uses[x] == types.Object(fi.Obj) {
+					if sel, isSel := p.Parent(x).(*ast.SelectorExpr); isSel && sel.Sel == x {
+						return true // counted at the selector
+					}
+					id, ref = x, x
+				}
+			}
+			if id == nil {
+				return true
+			}
+			nref++
+			call, isCall := p.Parent(ref).(*ast.CallExpr)
+			if !isCall || ast.Unparen(call.Fun) == ref {
+				ok = false // called directly (or used some other way)
+				return true
+			}
+			if !isCallTo(oinfo, call, "sync.(*Once).Do") || len(call.Args) != 1 || ast.Unparen(call.Args[0]) != ref {
+				ok = false
+				return true
+			}
+			if rx := recvExpr(call); rx == nil || !p.isField(oinfo, rx, typ, field) {
+				ok = false
+			}
+			return true
+		})
+	}
+	return nref > 0 && ok
 }
